@@ -1,35 +1,66 @@
 #!/usr/bin/env python3
-"""MANIFEST.setup_cmd: build every Lean project and every harness crate from files on disk (offline)."""
-import glob, os, subprocess, sys
+"""MANIFEST.setup_cmd: build every claimed check's Lean targets and harness crate from files on disk (offline).
+Groups are built in parallel (separate lake projects / cargo target dirs)."""
+import glob, importlib.util, json, os, subprocess, sys, threading
 sys.path.insert(0, os.path.dirname(os.path.abspath(__file__)))
 import vlib
 V = vlib.VERIF
-rc = 0
-import importlib.util, json
 CLAIMED = set(json.load(open(os.path.join(V, "tools", "claimed.json"))))
-seen = set()
+specs = []
 for f in sorted(glob.glob(os.path.join(V, "tools", "props", "C*.py"))):
     sp = importlib.util.spec_from_file_location("m", f)
     m = importlib.util.module_from_spec(sp); sp.loader.exec_module(m)
-    s = m.SPEC
-    if s["id"] not in CLAIMED:
-        continue
-    proj = os.path.join(V, "lean", s["lean_project"])
-    t = [s["props_module"], s["audit_file"][:-5].replace("/", ".")] + ([s["driver"]] if s.get("driver") else [])
-    r = subprocess.run(["lake", "build"] + t, cwd=proj, stdout=subprocess.PIPE, stderr=subprocess.STDOUT, text=True)
+    if m.SPEC["id"] in CLAIMED:
+        specs.append((m.SPEC, m))
+        for ex in m.SPEC.get("extra_runs", []):
+            sub = dict(m.SPEC); sub.update(ex); sub["id"] = m.SPEC["id"] + "-" + ex.get("name", "x")
+            specs.append((sub, None))
+rc = [0]
+lock = threading.Lock()
+def say(s):
+    with lock:
+        print(s, flush=True)
+# constants first (they are inputs of the Lean builds)
+for ext in glob.glob(os.path.join(V, "tools", "extract_consts_*.py")):
+    subprocess.run([sys.executable, ext, vlib.REPO], cwd=V)
+by_proj, by_group = {}, {}
+for s, m in specs:
+    t = [s["props_module"], s["audit_file"][:-5].replace("/", ".")] + list(s.get("extra_lean_targets", [])) + ([s["driver"]] if s.get("driver") else [])
+    by_proj.setdefault(s["lean_project"], [])
+    for x in t:
+        if x not in by_proj[s["lean_project"]]:
+            by_proj[s["lean_project"]].append(x)
+    by_group.setdefault(s["group"], s)
+def lean_job(proj, targets):
+    r = subprocess.run(["lake", "build"] + targets, cwd=os.path.join(V, "lean", proj), stdout=subprocess.PIPE, stderr=subprocess.STDOUT, text=True)
+    say("lake build %s (%d targets) -> %d" % (proj, len(targets), r.returncode))
     if r.returncode != 0:
-        print("lake build %s failed:\n%s" % (t, r.stdout[-1500:])); rc = 1
-    if s["group"] not in seen:
-        seen.add(s["group"])
-        os.makedirs(os.path.join(V, ".work", "setup"), exist_ok=True)
-        ok, binp, tail = vlib.build_harness(s, os.path.join(V, ".work", "setup"))
-        print("harness %s -> %s" % (s["group"], "ok" if ok else "FAILED"))
-        if not ok:
-            print(tail); rc = 1
-    sfn = getattr(m, "setup", None)
-    if sfn:
+        say(r.stdout[-2000:]); rc[0] = 1
+def cargo_job(group, s):
+    w = os.path.join(V, ".work", "setup-" + group)
+    os.makedirs(w, exist_ok=True)
+    ok, binp, tail = vlib.build_harness(s, w)
+    say("harness %s -> %s" % (group, "ok" if ok else "FAILED"))
+    if not ok:
+        say(tail); rc[0] = 1
+ths = [threading.Thread(target=lean_job, args=(p, t)) for p, t in by_proj.items()]
+ths += [threading.Thread(target=cargo_job, args=(g, s)) for g, s in by_group.items()]
+def server_bin_job():
+    r = subprocess.run(["cargo", "build", "-p", "agdb_server", "--offline", "--target-dir", os.path.join(V, ".target", "server_bin")],
+                       cwd=vlib.REPO, env=dict(os.environ, RUSTFLAGS="--cfg agdb_verif", CARGO_NET_OFFLINE="true"),
+                       stdout=subprocess.PIPE, stderr=subprocess.STDOUT, text=True)
+    say("agdb_server binary (cfg agdb_verif) -> %d" % r.returncode)
+    if r.returncode != 0:
+        say(r.stdout[-2000:]); rc[0] = 1
+if "server" in by_group:
+    ths.append(threading.Thread(target=server_bin_job))
+for t in ths: t.start()
+for t in ths: t.join()
+for s, m in specs:
+    fn = getattr(m, "setup", None) if m else None
+    if fn:
         try:
-            sfn()
+            fn()
         except Exception as e:
-            print("setup hook of %s failed: %s" % (s["id"], e)); rc = 1
-sys.exit(rc)
+            say("setup hook of %s failed: %s" % (s["id"], e)); rc[0] = 1
+sys.exit(rc[0])
